@@ -1745,7 +1745,7 @@ class sptensor:
             )
         if isinstance(factor, np.ndarray):
             shapeArray = np.array(self.shape)
-            if factor.shape[0] != shapeArray[dims]:
+            if factor.ndim != 1 or factor.shape[0] != shapeArray[dims]:
                 assert False, "Size mismatch in scale"
             return ttb.sptensor(
                 self.subs,
